@@ -93,7 +93,7 @@ theorem parseKnown_insert (t : List Opt) (xs ps ys : List Arg) (h : ∀ x ∈ ps
       | optIgn => rw [run_plain t ps ys .optIgn c h (Or.inr rfl), run_optIgn]
       | afterDD => rw [run_afterDD', run_afterDD']
       | need d => exact absurd hs (hw d c).1
-      | needIgn => exact absurd hs (hw .defines c).2
+      | needIgn => exact absurd hs (hw (.append .defines) c).2
     simp only [this]
 
 end CbiVerif.ArgvPositional
